@@ -54,6 +54,11 @@ def bgra8 : PixFmt Rgba8 :=
   ⟨4, fun p => [p.b, p.g, p.r, p.a], fun bs => ⟨at0 bs 2, at0 bs 1, at0 bs 0, at0 bs 3⟩⟩
 def gray8 : PixFmt UInt8 := ⟨1, fun p => [p], fun bs => at0 bs 0⟩
 
+/-- channel_multiply for uint8_t channels (C07: `div255 (a*b)`, round to nearest) -/
+def mulU8 (a b : UInt8) : UInt8 :=
+  let t := a.toNat * b.toNat + 128
+  UInt8.ofNat ((t + t / 256) / 256)
+
 /-- copy_pixels / std::copy of a pixel row into the (interleaved) row buffer -/
 def encRow {α} (f : PixFmt α) (r : List α) : Bytes := r.flatMap f.enc
 
@@ -97,6 +102,14 @@ def crop {α} (s : Settings) (img : Img α) : Img α :=
 /-- the rectangle lies inside a `w × h` image -/
 def Settings.Inside (s : Settings) (w h : Nat) : Prop :=
   s.tlx + s.dimX w ≤ w ∧ s.tly + s.dimY h ≤ h
+
+/-- the shape shared by the row-wise readers: for every destination row `y` seek to `off (y + top_left.y)`, read `len`
+    bytes, decode the row, copy pixels [top_left.x, top_left.x + dim.x) -/
+def readRows {α} (file : Bytes) (off : Nat → Nat) (len : Nat) (rowDec : Bytes → List α) (s : Settings) (w h : Nat) : Img α :=
+  let dx := s.dimX w
+  let dy := s.dimY h
+  { w := dx, h := dy,
+    rows := (List.range dy).map fun y => sliceRow s.tlx dx (rowDec (((file.drop (off (y + s.tly))).take len))) }
 
 /-! ## devices: little endian integers (io/device.hpp) -/
 
@@ -253,11 +266,7 @@ def bmpGetOffset (info : BmpInfo) (pitch pos : Nat) : Nat :=
     copy pixels [top_left.x, top_left.x + dim.x) -/
 def bmpReadData {α} (f : PixFmt α) (file : Bytes) (info : BmpInfo) (s : Settings) : Img α :=
   let pitch := bmpPitch info
-  let dx := s.dimX info.width.toNat
-  let dy := s.dimY info.height.toNat
-  { w := dx, h := dy,
-    rows := (List.range dy).map fun y =>
-      sliceRow s.tlx dx (decRow f info.width.toNat (readAt file (bmpGetOffset info pitch (y + s.tly)) pitch)) }
+  readRows file (bmpGetOffset info pitch) pitch (decRow f info.width.toNat) s info.width.toNat info.height.toNat
 
 /-- `read_image(dev, img, settings, bmp_tag())` into rgb8 (`f = bgr8`) / rgba8 (`f = bgra8`) for the
     true-colour depths; `none` = io_error.  (Palette, RLE and bit-field files: Model/C13.) -/
@@ -366,11 +375,7 @@ def pnmScanline (t w : Nat) : Nat :=
     read one scanline and copy pixels [top_left.x, top_left.x + dim.x) -/
 def pnmReadBin {α} (f : PixFmt α) (data : Bytes) (info : PnmInfo) (s : Settings) : Img α :=
   let sl := pnmScanline info.type info.width
-  let dx := s.dimX info.width
-  let dy := s.dimY info.height
-  { w := dx, h := dy,
-    rows := (List.range dy).map fun y =>
-      sliceRow s.tlx dx (decRow f info.width (readAt data ((s.tly + y) * sl) sl)) }
+  readRows data (fun j => j * sl) sl (decRow f info.width) s info.width info.height
 
 /-- `read_image(dev, img, settings, pnm_tag())` of a *binary* file of type `t` into the matching image type
     (gray8 ← P5, rgb8 ← P6); is_allowed rejects every other binary type.  (ASCII files: Model/C13.) -/
@@ -430,11 +435,7 @@ def decodePnmMonoWith (rowDec : Bytes → List Bool) (file : Bytes) (s : Setting
   | some (info, data) =>
     if info.type = 4 then
       let sl := pnmScanline 4 info.width
-      let dx := s.dimX info.width
-      let dy := s.dimY info.height
-      some { w := dx, h := dy,
-             rows := (List.range dy).map fun y =>
-               sliceRow s.tlx dx (rowDec (padTo sl (readAt data ((s.tly + y) * sl) sl))) }
+      some (readRows data (fun j => j * sl) sl (fun bs => rowDec (padTo sl bs)) s info.width info.height)
     else none
 
 /-- `read_image(dev, gray1_image, settings, pnm_tag())` -/
